@@ -1140,6 +1140,16 @@ class SVG:
         g = etree.Element(f"{{{svgns()}}}g")
         g.extend(svg)
 
+        # presentation attributes set on the <svg> element are inherited by its content;
+        # transform, overflow and clip-path are about the viewport itself
+        for attr_name, attr_value in svg.attrib.items():
+            if attr_name in _INHERITABLE_ATTRIB and attr_name not in (
+                "transform",
+                "overflow",
+                "clip-path",
+            ):
+                g.attrib[attr_name] = attr_value
+
         if viewport != viewbox:
             preserve_aspect_ratio = svg.attrib.get("preserveAspectRatio", "xMidYMid")
             transform = Affine2D.rect_to_rect(viewbox, viewport, preserve_aspect_ratio)
